@@ -13,7 +13,6 @@ import (
 
 func customRoutes(cfg *config.Custom, ch chan string) {
 
-	var Routes *[]route.RouteDef
 	var trans *http.Transport
 	var URL string
 
@@ -65,6 +64,9 @@ func customRoutes(cfg *config.Custom, ch chan string) {
 			continue
 		}
 		log.Printf("[DEBUG] Custom Registry begin decoding json %s \n", time.Now())
+		// decode into a fresh slice. Decode reuses the elements of an existing
+		// slice and keeps the values of fields which are missing in the response.
+		var Routes *[]route.RouteDef
 		decoder := json.NewDecoder(resp.Body)
 		err = decoder.Decode(&Routes)
 		if err != nil {
